@@ -555,3 +555,13 @@ def run_case(rng, idx, tier):
     finally:
         shutil.rmtree(wd, ignore_errors=True)
     return c
+
+
+def extra_coverage(recs, tier):
+    """The inconclusive (uncertified) mismatches of this run, written out so that a reader sees them."""
+    out = []
+    for r in recs:
+        s = r.get("sample")
+        if isinstance(s, dict) and s.get("uncertified"):
+            out.append({"idx": r.get("idx"), "start": s.get("start"), **s["uncertified"]})
+    return {"uncertified_mismatches": out[:40], "uncertified_mismatches_total": len(out)}
